@@ -45,10 +45,11 @@ def c_rng(r):
 def c_proc(o):
     return ("{| C30.s_out := %s; C30.s_err := %s; C30.s_in := %s; C30.nullw_closed := %s; C30.nullr_closed := %s; "
             "C30.fd0 := %s; C30.fd1 := %s; C30.fd2 := %s; C30.logd := %s; C30.mod_rng := %s; C30.inst_rng := %s; "
-            "C30.pyn_rng := %s; C30.counter := %s |}") % (
+            "C30.pyn_rng := %s; C30.counter := %s; C30.log_cache := %s |}") % (
         c_sref(o["s_out"]), c_sref(o["s_err"]), c_sref(o["s_in"]), cbool(o["nullw_closed"]), cbool(o["nullr_closed"]),
         cbool(o["fds"][0]), cbool(o["fds"][1]), cbool(o["fds"][2]), cZ(o["logd"]), c_rng(o["mod_rng"]),
-        c_rng(o["inst_rng"]), c_rng(o["pyn_rng"]), cZ(o["counter"]))
+        c_rng(o["inst_rng"]), c_rng(o["pyn_rng"]), cZ(o["counter"]),
+        "None" if o["log_cache"] is None else f"(Some {cbool(o['log_cache'])})")
 
 
 def c_out(o):
@@ -149,7 +150,7 @@ def run(ctx: vlib.Ctx):
             key = (tuple(acts), logd, fsiso)
             if key not in refs:
                 sess.new_executor()
-                sess.reset({"logd": logd, "fsiso": fsiso, "items": []})
+                sess.reset({"logd": logd, "fsiso": fsiso, "items": []})  # cold logger cache
                 refs[key] = sess.execute(list(acts))
             return refs[key]
 
